@@ -93,8 +93,8 @@ var h1Targets = []string{"/", "/a", "/a/b?x=1&y=2", "*", "/index.html", "/p;v=1"
 	"http://h.example/p", "http://h.example:8080/", "http://a-b.c", "http://h:80/x?y=1", "http://h/a\"b",
 	"/a%20b", "/a%2", "/a?q=%zz", "/a#f", "//x/y", "abc", "a:b", "h.example:443", "h:1"}
 var names = []string{"X-A", "x-b", "Accept", "user-agent", "Connection", "Cookie", "X_u", "Te", "content-type", "Zz", "Aa", "Expect", "X-A"}
-var badNames = []string{"X A", "X-A ", "X(bad)", "X\x0b", "X\x80", "x\ty", "Host ", "Transfer-Encoding ", "X\rEvil"}
-var vals = []string{"v", "a b", "close", "keep-alive", "text/plain; q=1", "", "a,b", "x:y", "1", "\x80\xff", "a\rb", "a\x00b", "\x01", "a\x7f",
+var badNames = []string{"\xe2\x84\xaaeep-Alive", "Ho\xc5\xbft", "Tran\xc5\xbffer-Encoding", "X\xff", "X A", "X-A ", "X(bad)", "X\x0b", "X\x80", "x\ty", "Host ", "Transfer-Encoding ", "X\rEvil"}
+var vals = []string{"chun\xe2\x84\xaaed", "\xc2\xa0v\xc2\xa0", "v\xc2\x85", "\xc4\xb0", "v", "a b", "close", "keep-alive", "text/plain; q=1", "", "a,b", "x:y", "1", "\x80\xff", "a\rb", "a\x00b", "\x01", "a\x7f",
 	"100-continue", "a\r", "\rEvil: 1", "k=v"}
 
 func genH1(r *hv.Rng) (string, hv.Val) {
@@ -172,14 +172,15 @@ func genH1(r *hv.Rng) (string, hv.Val) {
 }
 
 var xMethods = []string{"GET", "GET", "POST", "HEAD", "OPTIONS", "get", "CONNECT"}
-var xBadMethods = []string{"GET /evil HTTP/1.1", "G T", "GET\r\nEvil: 1", "G(T", "GET\t", "G\x80", "GET\r\n\r\nGET /x HTTP/1.1\r\nHost: y"}
+var xBadMethods = []string{"G\xc3\x89T", "GET\xff", "\xe2\x84\xaa", "CONNE\xc4\x86T", "HE\xc3\x84D","GET /evil HTTP/1.1", "G T", "GET\r\nEvil: 1", "G(T", "GET\t", "G\x80", "GET\r\n\r\nGET /x HTTP/1.1\r\nHost: y"}
 var xPaths = []string{"/", "/a", "/a/b?x=1", "*", "/\x80", "/p;v=1", "/a\"b", "/a%20b", "/a%2", "/a?%", "//x/y", "/a#f", "abc", "a:b"}
-var xBadPaths = []string{"/a b", "/ HTTP/1.1\r\nEvil: 1\r\n\r\nGET /x", "/a\tb", "", "/a HTTP/1.1", "/\x7f", "/a\r\nX: y", "/a\nb", " /", "/a "}
+var xBadPaths = []string{"/a\xc2\xa0b", "/a\xe2\x80\xa8b", "/a\xc2\x85b", "/a b", "/ HTTP/1.1\r\nEvil: 1\r\n\r\nGET /x", "/a\tb", "", "/a HTTP/1.1", "/\x7f", "/a\r\nX: y", "/a\nb", " /", "/a "}
 var xHosts = []string{"a.example", "b:80", "a.example", "h"}
-var xBadHosts = []string{"a b", "a\r\nEvil: 1", "a\rb", "", " a", "a\nHost: b", "a\x00b"}
+var xBadHosts = []string{"a\xe2\x84\xaa.example", "a\xc2\x85Evil: 1", "a\xe2\x80\xa8b", "a b", "a\r\nEvil: 1", "a\rb", "", " a", "a\nHost: b", "a\x00b"}
 var xNames = []string{"x-a", "accept", "user-agent", "cookie", "cookie", "x_u", "te", "content-type", "zz", "aa", "expect", "content-length", "trailer", "1a", "x-a"}
-var xBadNames = []string{"X-A", "x a", "x-a ", "x(bad)", "x\r\nevil: 1\r\nx", "x\r\n\r\nget /evil http/1.1\r\nhost: e\r\n\r\n", "x:y", "", "x\x00", "host", "connection", "transfer-encoding", "keep-alive", ":method", ":unknown", "x\ny"}
-var xVals = []string{"v", "a b", "text/plain", "", "a,b", "1", "\x80\xff", "a\rb", "a\nEvil: 1", "a\x00b", "\x01", "a\x7f", "100-continue", "k=v", "5", " v ", "a\r\n\r\nGET /evil HTTP/1.1\r\n\r\n", "a\tb"}
+var xBadNames = []string{"x-\xe2\x84\xaa", "ho\xc5\xbft", "x-\xc4\xb0", "x-\xc4\xb1", "x\xc2\xa0", "x\xff", "x\x80y", "x-\xc3\xa9", "tran\xc5\xbffer-encoding", "\xe2\x84\xaaeep-alive",
+	"X-A", "x a", "x-a ", "x(bad)", "x\r\nevil: 1\r\nx", "x\r\n\r\nget /evil http/1.1\r\nhost: e\r\n\r\n", "x:y", "", "x\x00", "host", "connection", "transfer-encoding", "keep-alive", ":method", ":unknown", "x\ny"}
+var xVals = []string{"v", "a b", "text/plain", "", "a,b", "1", "\x80\xff", "chun\xe2\x84\xaaed", "100-\xc4\x87ontinue", "\xc2\xa0v", "v\xe2\x80\xa8Evil: 1", "100-CONTINUE", "a\rb", "a\nEvil: 1", "a\x00b", "\x01", "a\x7f", "100-continue", "k=v", "5", " v ", "a\r\n\r\nGET /evil HTTP/1.1\r\n\r\n", "a\tb"}
 
 func genFields(r *hv.Rng, spdy bool) (string, hv.L) {
 	class := "ok"
@@ -263,10 +264,13 @@ func gen(r *hv.Rng, i int, tier string) (string, hv.Val) {
 		switch r.Intn(6) {
 		case 0, 1:
 			fs = append(fs, hv.L{hv.S("content-length"), hv.S(fmt.Sprintf("%d", len(body)))})
-		case 2:
-			if r.Chance(1, 4) {
-				fs = append(fs, hv.L{hv.S("content-length"), hv.S(fmt.Sprintf("%d", len(body)+1))})
-			}
+		case 2: // every way the declared length can disagree with, or fail to describe, the delivered body
+			n := len(body)
+			v := r.Pick([]string{fmt.Sprintf("%d", n+1), fmt.Sprintf("%d", n-1), "0", fmt.Sprintf("+%d", n), fmt.Sprintf("0%d", n),
+				"-1", "-0", "abc", "", " 1", "9223372036854775807", "9223372036854775808", "-9223372036854775809",
+				fmt.Sprintf("%d ", n), "1_0", "\xef\xbc\x93"})
+			fs = append(fs, hv.L{hv.S("content-length"), hv.S(v)})
+			c = "cl-" + c
 		}
 		return label + "body-" + c, hv.L{hv.I(tag), fs, hv.S(body)}
 	}
